@@ -18,6 +18,14 @@
 //!   11 PEEROPEN dir | 12 DATA sid len fin | 13 FINGAP sid g | 14 PRESET sid | 15 PSTOP sid
 //!   16 MAXSD sid v | 17 MAXSTREAMS dir v | 18 LOAD | 19 ACK sid | 20 DGRAM len
 //!   21 CONNERR eid | 22 FLOWERR eid | 23 CREDIT n
+//!   24 RACE eid ttag targs… : the task op `ttag targs` (1 OPEN dir | 2 ACCEPT dir) is polled on a second
+//!      thread and STALLED INSIDE ITS CRITICAL SECTION (the harness holds the ArcParameters lock, which
+//!      open_bi/open_uni/accept_bi take after their stream / listener guards); while it is stalled the
+//!      connection-error fan-out of op 21 runs on a third thread until it blocks (on a guard the poll
+//!      holds) or finishes; then the parameter lock is released and both run to completion.  This is the
+//!      one schedule of "a poll racing the close" that a sequential history cannot express: the poll
+//!      has passed its health check but has not parked its waker yet when the close begins.  Whatever
+//!      the close does outside the guards runs BEFORE the poll parks.  Answers with the poll's result.
 //! observation:  <result words> W <tids woken by the op> C <tid code val>*   with
 //!   result of a task op: code val   (0 Pending | 1 Ok val | 2 connection error eid | 3 stream-level
 //!   error (1 EosSent, 2 Reset) | 4 no stream id left | 8 slot busy | 9 unknown stream)
@@ -26,7 +34,7 @@
 use std::collections::BTreeMap;
 use std::future::Future;
 use std::pin::Pin;
-use std::sync::atomic::{AtomicUsize, Ordering};
+use std::sync::atomic::{AtomicBool, AtomicUsize, Ordering};
 use std::sync::{Arc, Mutex};
 use std::task::{Context, Poll, Wake, Waker};
 
@@ -322,58 +330,191 @@ fn se(e: StreamError) -> (i128, i128) {
     }
 }
 
+/// what one poll of open / accept produced (the stream halves travel back to the harness thread)
+enum Opened {
+    Pending,
+    Failed(i128),
+    NoSid,
+    Bi(u64, Reader<Ext<Tx>>, Writer<Ext<Tx>>, bool),
+    SendOnly(u64, Writer<Ext<Tx>>),
+    RecvOnly(u64, Reader<Ext<Tx>>),
+}
+
+/// one poll of open_bi / open_uni / accept_bi / accept_uni on the shared handles; runs on whatever
+/// thread calls it (the harness thread for ordinary task ops, a second thread for RACE)
+fn poll_open_accept(ds: &DataStreams<Tx>, params: &ArcParameters, kind: Kind, waker: &Waker) -> Opened {
+    let mut cx = Context::from_waker(waker);
+    match kind {
+        Kind::Open(0) => {
+            let mut f = std::pin::pin!(ds.open_bi(params));
+            match Pin::new(&mut f).poll(&mut cx) {
+                Poll::Pending => Opened::Pending,
+                Poll::Ready(Ok(Some((sid, (r, w))))) => Opened::Bi(sid_u(sid), r, w, true),
+                Poll::Ready(Ok(None)) => Opened::NoSid,
+                Poll::Ready(Err(e)) => Opened::Failed(eid_of(&e)),
+            }
+        }
+        Kind::Open(_) => {
+            let mut f = std::pin::pin!(ds.open_uni(params));
+            match Pin::new(&mut f).poll(&mut cx) {
+                Poll::Pending => Opened::Pending,
+                Poll::Ready(Ok(Some((sid, w)))) => Opened::SendOnly(sid_u(sid), w),
+                Poll::Ready(Ok(None)) => Opened::NoSid,
+                Poll::Ready(Err(e)) => Opened::Failed(eid_of(&e)),
+            }
+        }
+        Kind::Accept(0) => {
+            let mut f = std::pin::pin!(ds.accept_bi(params));
+            match Pin::new(&mut f).poll(&mut cx) {
+                Poll::Pending => Opened::Pending,
+                Poll::Ready(Ok((sid, (r, w)))) => Opened::Bi(sid_u(sid), r, w, false),
+                Poll::Ready(Err(e)) => Opened::Failed(eid_of(&e)),
+            }
+        }
+        Kind::Accept(_) => {
+            let mut f = std::pin::pin!(ds.accept_uni());
+            match Pin::new(&mut f).poll(&mut cx) {
+                Poll::Pending => Opened::Pending,
+                Poll::Ready(Ok((sid, r))) => Opened::RecvOnly(sid_u(sid), r),
+                Poll::Ready(Err(e)) => Opened::Failed(eid_of(&e)),
+            }
+        }
+        _ => unreachable!("poll_open_accept: not an open/accept task"),
+    }
+}
+
+/// files what an open / accept poll produced: (code, val)
+fn note_opened(st: &mut St, r: Opened) -> (i128, i128) {
+    match r {
+        Opened::Pending => (0, 0),
+        Opened::Failed(id) => (2, id),
+        Opened::NoSid => (4, 0),
+        Opened::Bi(sid, r, w, ours) => {
+            st.readers.insert(sid, r);
+            st.writers.insert(sid, w);
+            if ours {
+                st.recv_track.insert(sid, RecvTrack { rcvd: 0, fin: None, reset: false });
+            }
+            (1, sid as i128)
+        }
+        Opened::SendOnly(sid, w) => {
+            st.writers.insert(sid, w);
+            (1, sid as i128)
+        }
+        Opened::RecvOnly(sid, r) => {
+            st.readers.insert(sid, r);
+            (1, sid as i128)
+        }
+    }
+}
+
+/// the fan-out of qconnection::Components::enter_closing / enter_draining over the components the stream drives
+fn fan_out(ds: &DataStreams<Tx>, dg: &DatagramFlow, params: &ArcParameters, e: &Error) {
+    ds.on_conn_error(e);
+    dg.on_conn_error(e);
+    params.on_conn_error(e);
+}
+
+/// `/proc/<pid>/task/<tid>/stat` of the calling thread
+fn my_stat_path() -> String {
+    match std::fs::read_link("/proc/thread-self") {
+        Ok(l) => format!("/proc/{}/stat", l.display()),
+        Err(_) => String::new(),
+    }
+}
+
+/// waits until the thread has finished (`done`) or sleeps in the kernel, i.e. is blocked on a lock (the
+/// racing threads do nothing else that sleeps); false = neither within 10 s (reported as abnormal)
+fn wait_parked(stat: &str, done: &AtomicBool) -> bool {
+    let t0 = std::time::Instant::now();
+    let mut seen = 0;
+    loop {
+        if done.load(Ordering::SeqCst) {
+            return true;
+        }
+        let state = std::fs::read_to_string(stat)
+            .ok()
+            .and_then(|s| s.rfind(')').and_then(|i| s[i + 1..].trim_start().chars().next()));
+        if state == Some('S') {
+            seen += 1;
+            if seen >= 3 {
+                return true;
+            }
+        } else {
+            seen = 0;
+        }
+        if t0.elapsed().as_secs() >= 10 {
+            return false;
+        }
+        std::thread::sleep(std::time::Duration::from_micros(200));
+    }
+}
+
+/// RACE: see the module documentation
+fn race(st: &mut St, o: &mut Obs, tid: usize, kind: Kind, eid: u64) {
+    let e = error_of(eid);
+    if let Some(slot) = kind.slot() {
+        if st.tasks.iter().any(|t| t.kind.slot() == Some(slot)) {
+            o.push(8).push(0);
+            fan_out(&st.ds, &st.dg, &st.params, &e);
+            return;
+        }
+    }
+    let cw = Arc::new(CountWaker(AtomicUsize::new(0)));
+    let waker = Waker::from(cw.clone());
+    let (ds, dg, params) = (st.ds.clone(), st.dg.clone(), st.params.clone());
+    let gate_on = params.clone();
+    let gate = gate_on.lock_guard();
+    let opened = match gate {
+        // the parameters have failed already: nothing to stall on, the poll simply runs first
+        Err(_) => {
+            let r = poll_open_accept(&ds, &params, kind, &waker);
+            fan_out(&ds, &dg, &params, &e);
+            Some(r)
+        }
+        Ok(gate) => {
+            let (a_done, b_done) = (AtomicBool::new(false), AtomicBool::new(false));
+            let (tx_a, rx_a) = std::sync::mpsc::channel::<String>();
+            let (tx_b, rx_b) = std::sync::mpsc::channel::<String>();
+            std::thread::scope(|sc| {
+                let ha = sc.spawn(|| {
+                    let _ = tx_a.send(my_stat_path());
+                    let r = poll_open_accept(&ds, &params, kind, &waker);
+                    a_done.store(true, Ordering::SeqCst);
+                    r
+                });
+                let ok_a = rx_a.recv().map(|p| wait_parked(&p, &a_done)).unwrap_or(false);
+                let hb = sc.spawn(|| {
+                    let _ = tx_b.send(my_stat_path());
+                    fan_out(&ds, &dg, &params, &e);
+                    b_done.store(true, Ordering::SeqCst);
+                });
+                let ok_b = rx_b.recv().map(|p| wait_parked(&p, &b_done)).unwrap_or(false);
+                drop(gate);
+                let r = ha.join().ok();
+                let _ = hb.join();
+                if ok_a && ok_b { r } else { None }
+            })
+        }
+    };
+    let Some(opened) = opened else {
+        o.push(-77);
+        return;
+    };
+    let (code, val) = note_opened(st, opened);
+    o.push(code).push(val);
+    if code == 0 {
+        st.tasks.push(Task { tid, kind, cw, seen: 0 });
+    }
+}
+
 /// one poll of a task: (code, val)
 fn poll_task(st: &mut St, kind: Kind, waker: &Waker) -> (i128, i128) {
     let mut cx = Context::from_waker(waker);
     match kind {
-        Kind::Open(0) => {
-            let mut f = std::pin::pin!(st.ds.open_bi(&st.params));
-            match Pin::new(&mut f).poll(&mut cx) {
-                Poll::Pending => (0, 0),
-                Poll::Ready(Ok(Some((sid, (r, w))))) => {
-                    st.readers.insert(sid_u(sid), r);
-                    st.writers.insert(sid_u(sid), w);
-                    st.recv_track.insert(sid_u(sid), RecvTrack { rcvd: 0, fin: None, reset: false });
-                    (1, sid_u(sid) as i128)
-                }
-                Poll::Ready(Ok(None)) => (4, 0),
-                Poll::Ready(Err(e)) => (2, eid_of(&e)),
-            }
-        }
-        Kind::Open(_) => {
-            let mut f = std::pin::pin!(st.ds.open_uni(&st.params));
-            match Pin::new(&mut f).poll(&mut cx) {
-                Poll::Pending => (0, 0),
-                Poll::Ready(Ok(Some((sid, w)))) => {
-                    st.writers.insert(sid_u(sid), w);
-                    (1, sid_u(sid) as i128)
-                }
-                Poll::Ready(Ok(None)) => (4, 0),
-                Poll::Ready(Err(e)) => (2, eid_of(&e)),
-            }
-        }
-        Kind::Accept(0) => {
-            let mut f = std::pin::pin!(st.ds.accept_bi(&st.params));
-            match Pin::new(&mut f).poll(&mut cx) {
-                Poll::Pending => (0, 0),
-                Poll::Ready(Ok((sid, (r, w)))) => {
-                    st.readers.insert(sid_u(sid), r);
-                    st.writers.insert(sid_u(sid), w);
-                    (1, sid_u(sid) as i128)
-                }
-                Poll::Ready(Err(e)) => (2, eid_of(&e)),
-            }
-        }
-        Kind::Accept(_) => {
-            let mut f = std::pin::pin!(st.ds.accept_uni());
-            match Pin::new(&mut f).poll(&mut cx) {
-                Poll::Pending => (0, 0),
-                Poll::Ready(Ok((sid, r))) => {
-                    st.readers.insert(sid_u(sid), r);
-                    (1, sid_u(sid) as i128)
-                }
-                Poll::Ready(Err(e)) => (2, eid_of(&e)),
-            }
+        Kind::Open(_) | Kind::Accept(_) => {
+            let r = poll_open_accept(&st.ds, &st.params, kind, waker);
+            note_opened(st, r)
         }
         Kind::Write(sid, len) => match st.writers.get_mut(&sid) {
             None => (9, 0),
@@ -625,9 +766,7 @@ fn step(st: &mut St, op: &Op, idx: usize) -> Obs {
         }
         21 => {
             let e = error_of(op.u(0));
-            st.ds.on_conn_error(&e);
-            st.dg.on_conn_error(&e);
-            st.params.on_conn_error(&e);
+            fan_out(&st.ds, &st.dg, &st.params, &e);
             o.push(0);
         }
         22 => {
@@ -642,6 +781,10 @@ fn step(st: &mut St, op: &Op, idx: usize) -> Obs {
                 o.push(2).push(eid_of(&e));
             }
         },
+        24 if op.args.len() == 3 && (op.u(1) == 1 || op.u(1) == 2) => {
+            let kind = if op.u(1) == 1 { Kind::Open(op.u(2).min(1)) } else { Kind::Accept(op.u(2).min(1)) };
+            race(st, &mut o, idx, kind, op.u(0));
+        }
         _ => {
             o.push(-99);
             return o;
